@@ -397,6 +397,84 @@ def spell_diff(res, rec):
 def wire_caps(spans):
     return [[exact(s), exact(e)] for (s, e) in spans]
 
+# ---- wave 7: the DFXP DOCUMENT at string level (request 207 = coq/model/DfxpWriteDoc.v) -------------------------------
+DOC_ATOMS = ["hello", "a & b", "<i>x</i>", "l'a \"q\"", "\u00e9\u4e2d", "1 < 2 > 0", "&amp;", "x]]>y", "{1}{2}", "a\u00a0b", "-->", "w"]
+
+
+def stream_dfxp_doc_text(ctx, res):
+    """one language of captions given as clean text lines, integer times anywhere below 24 h (any order, overlaps, equal
+    spans): the text the string-level writer model prints must be the real DFXPWriter's text, character by character;
+    the text is then read by the real DFXPReader and by the string-level reader model (request 121): both must return
+    floor(t / 1000) * 1000 for every start and end (theorem C02_dfxp_document_string)."""
+    from pycaption import DFXPWriter, DFXPReader, CaptionSet, CaptionList, Caption, CaptionNode
+    rng = ctx.rng
+    dist = res["distribution"]
+    cases = []
+    for _ in range(ctx.n(150, 3000)):
+        lang = rng.choice(LANGS + ["pt-BR", "x"])
+        caps = []
+        for _ in range(rng.choice([1, 1, 2, 3, 5]) if rng.random() > 0.03 else 60):
+            a, b = gen_time(rng), gen_time(rng)
+            a, b = int(a), int(b)
+            if b < a:
+                a, b = b, a
+            lines = [" ".join(rng.choice(DOC_ATOMS) for _ in range(rng.choice([1, 1, 2, 3]))) for _ in range(rng.choice([1, 1, 2, 3]))]
+            caps.append([a, b, lines])
+        cases.append((lang, caps))
+    texts = oracle_batch([(207, [lang, caps]) for (lang, caps) in cases])
+    reals = []
+    for (lang, caps) in cases:
+        pc = []
+        for (a, b, lines) in caps:
+            nodes = []
+            for i, l in enumerate(lines):
+                if i:
+                    nodes.append(CaptionNode.create_break())
+                nodes.append(CaptionNode.create_text(l))
+            pc.append(Caption(a, b, nodes))
+        reals.append(impl.call(lambda: DFXPWriter().write(CaptionSet({lang: CaptionList(pc)}))))
+    # the string-level READER model reads the model's text and the real writer's text
+    models = oracle_batch([(121, t) for t in texts])
+    models_real = oracle_batch([(121, r.v if isinstance(r, Ok) else "") for r in reals])
+    ndiff = 0
+
+    def unwire(m):
+        return [[l, [list(x) for x in c]] for (l, c) in m[1]] if m[0] == 0 else m
+
+    for (lang, caps), text, m, real, mr in zip(cases, texts, models, reals, models_real):
+        res["evaluations"] += 1
+        want = [[lang, [[a // 1000 * 1000, b // 1000 * 1000] for (a, b, _) in caps]]]
+        if not isinstance(real, Ok):
+            res["violations"].append({"kind": "dfxp-document-round-trip", "writer": "dfxp", "replay": "dfxp-doc",
+                                      "what": "DFXPWriter raised %r for %s" % (real, caps), "input": [lang, caps]})
+            continue
+        if real.v != text:
+            # another layout of the same document is not a failure of the property: recorded; the real text must still
+            # be read as the same captions by the real reader (violation) and by the string-level reader model
+            ndiff += 1
+            res.setdefault("document_text_differences", []).append({"input": [lang, caps], "model": text[:300], "impl": real.v[:300]})
+        back = impl.call(lambda: [[l, [[c.start, c.end] for c in cs.get_captions(l)]]
+                                  for cs in [DFXPReader().read(real.v)] for l in cs.get_languages()])
+        if not (isinstance(back, Ok) and back.v == want):
+            res["violations"].append({"kind": "dfxp-document-round-trip", "writer": "dfxp", "replay": "dfxp-doc",
+                                      "what": "DFXPWriter document for %s read back by DFXPReader as %s, expected %s"
+                                              % (caps, back.v if isinstance(back, Ok) else repr(back), want),
+                                      "input": [lang, caps]})
+            continue
+        if unwire(m) != want:
+            res["disagreements"].append({"what": "string-level reader model on the writer model's document", "input": [lang, caps],
+                                         "model": unwire(m), "expected": want})
+        if unwire(mr) != want and not (mr[0] == 1 and mr[1] == 199):
+            res["disagreements"].append({"what": "string-level reader model on the real writer's document", "input": [lang, caps],
+                                         "model": unwire(mr), "expected": want})
+        for (a, b, _) in caps:
+            if a >= 60 * 10**6 or a % 1000:
+                res["nontrivial"].add(("dfxp-doc", a, b))
+    dist["dfxp_documents_compared_with_string_level_writer_model"] = len(cases)
+    dist["dfxp_documents_differing_from_string_level_writer_model"] = ndiff
+    res["notes"].append("DFXP documents whose text differs from the string-level writer model's (layout of the document is "
+                        "not fixed by the property: recorded, not failing; the captions read back must be the same): %d" % ndiff)
+
 
 def run(ctx):
     rng = ctx.rng
@@ -575,6 +653,7 @@ def run(ctx):
     res["notes"].append("tokens that satisfy the oracle but differ from the model's prediction (spelling, or the other "
                         "admissible value of a non-integer time): %d (recorded, not failing)"
                         % dist["tokens_differing_from_model_but_accepted"])
+    stream_dfxp_doc_text(ctx, res)
     if ctx.thorough:
         sweep(ctx, res)
     res["rule"] = ("caption sets of 1-3 languages, 1-6 captions, EVERY language arbitrary (runs, overlaps, unsorted, "
@@ -593,7 +672,10 @@ def run(ctx):
                    "a set must satisfy the sync rule whatever its shape (overlapping, nested, unsorted, repeated cues); a "
                    "FURTHER language of a set that is not a timeline whose syncs are exactly the rule's but in another "
                    "document order: own failure-keyed kind, known finding. Non-trivial: distinct (writer, start, end) with start >= 1 min or a sub-millisecond part; SAMI "
-                   "lists with >= 2 cues.")
+                   "lists with >= 2 cues. DFXP document stream (wave 7): 150 single-language caption lists (1-5, 3%: 60 captions; "
+                   "integer times from the same generator, any order), 1-3 text lines of atoms with & < > quotes ]]> U+00A0 "
+                   "non-ASCII: model text == real text (recorded), real text read back by the real reader (violation) and by "
+                   "the string-level reader model (disagreement) == floored captions.")
     res["clauses"] = {
         "theorem": ["shared formatter / WebVTT formatter: printed fields parse (independent parser) to floor(rhe t/1000) ms, "
                     "2/2/2/3 digits, MM<60, SS<60, for all 0 <= t < 24 h; rhe t = t on integers; value accepted by the spec",
@@ -606,7 +688,11 @@ def run(ctx):
                     "number of languages (C02_sami_first_language_rule, C02_sami_every_language_rule, "
                     "C02_sami_document_meets_oracle)",
                     "binary64 int(t*25.0/1e6) = exact floor for integer t < 24 h (C02_mdvd_frames_binary64)",
-                    "SRT and legacy/single-position cues = maximal runs"],
+                    "SRT and legacy/single-position cues = maximal runs",
+                    "DFXP DOCUMENT at string level (wave 7): the written text is a well-formed rendering whose begin / end "
+                    "attributes are the writer model's tokens, and the string-level reader model reads it back as one "
+                    "caption per caption, in order, floored to the millisecond, for every caption list with integer times "
+                    "below 24 h (C02_dfxp_document_wellformed, _tokens, _string)"],
         "definitional_or_partial": ["C02_mdvd_frames_floor_partial, C02_sami_start_integer_partial: model and spec are the "
                                     "same exact-rational floor; content = the decimal printer round trip; the binary64 "
                                     "computation of the real writers is NOT modelled",
@@ -625,7 +711,7 @@ def run(ctx):
 
 def sweep(ctx, res):
     """thorough: 891 sampled seconds (every 97th) x 3 anchors (second start, last microsecond, a frame boundary) x {-1,0,+1}
-    through SRT, WebVTT, MicroDVD - a sample, NOT every frame boundary (DESIGN.md 7/C02 promised more than is done)"""
+    through SRT, WebVTT, MicroDVD (a sample), then - wave 7 - EVERY MicroDVD frame boundary below 24 h (sweep_frames)"""
     for base in range(0, 86400, 97):
         spans = []
         for k in (base * 10**6, base * 10**6 + 999999, base * 10**6 + 40000 * 7):
@@ -642,6 +728,45 @@ def sweep(ctx, res):
                                           "input": [[list(map(repr, se)) for se in spans]], "lang_index": 0,
                                           "two_layout": False, "observed": repr(o), "replay": "write"})
     res["distribution"]["sweep_boundaries"] = 86400 // 97 * 9
+    sweep_frames(res)
+
+
+def sweep_frames(res, lo=1, hi=86400 * 25, block=20000):
+    """wave 7, thorough: EVERY MicroDVD frame boundary below 24 h (2 160 000 frames at 25 fps): the last microsecond before
+    the boundary (as a start) and the boundary itself (as an end) go through the real MicroDVDWriter (public API, blocks of
+    20 000 captions; about 3 minutes); expected frame numbers in exact integer arithmetic (t * 25 // 10**6 = what C02_mdvd_frames_binary64
+    proves the binary64 computation returns)."""
+    import re as _re
+    from pycaption import MicroDVDWriter, CaptionSet, CaptionList, Caption, CaptionNode
+    pat = _re.compile(r"^\{(\d+)\}\{(\d+)\}x$")
+    bad = 0
+    for a in range(lo, hi, block):
+        ns = range(a, min(a + block, hi))
+        caps, exp = [], []
+        for n in ns:
+            b = 40000 * n
+            caps.append(Caption(b - 1, b, [CaptionNode.create_text("x")]))    # start: last us of frame n-1, end: first of n
+            exp.append((n - 1, n))
+        out = impl.call(lambda: MicroDVDWriter().write(CaptionSet({"en-US": CaptionList(caps)})))
+        res["evaluations"] += 1
+        got = []
+        if isinstance(out, Ok):
+            for line in out.v.split("\n"):
+                m = pat.match(line)
+                if m:
+                    got.append((int(m.group(1)), int(m.group(2))))
+        if got != exp:
+            bad += 1
+            k = next((i for i, (x, y) in enumerate(zip(got, exp)) if x != y), 0)
+            c = caps[k] if k < len(caps) else caps[0]
+            res["violations"].append({"kind": "mdvd-tokens", "writer": "mdvd",
+                                      "what": "frame-boundary sweep: caption (%d, %d) written as %s, expected %s" % (
+                                          c.start, c.end, got[k] if k < len(got) else repr(out)[:80], exp[k] if k < len(exp) else None),
+                                      "input": [[[repr(c.start), repr(c.end)]]], "lang_index": 0, "two_layout": False,
+                                      "observed": repr(got[k] if k < len(got) else None), "replay": "write"})
+            if bad >= 3:
+                break
+    res["distribution"]["sweep_every_frame_boundary_below_24h"] = hi - lo
 
 
 def parse_time(r):
@@ -649,6 +774,22 @@ def parse_time(r):
 
 
 def replay(ctx, rec):
+    if rec.get("replay") == "dfxp-doc":
+        from pycaption import DFXPWriter, DFXPReader, CaptionSet, CaptionList, Caption, CaptionNode
+        lang, caps = rec["input"]
+        pc = []
+        for (a, b, lines) in caps:
+            nodes = []
+            for i, l in enumerate(lines):
+                if i:
+                    nodes.append(CaptionNode.create_break())
+                nodes.append(CaptionNode.create_text(l))
+            pc.append(Caption(a, b, nodes))
+        want = [[lang, [[a // 1000 * 1000, b // 1000 * 1000] for (a, b, _) in caps]]]
+        back = impl.call(lambda: [[l, [[c.start, c.end] for c in cs.get_captions(l)]]
+                                  for cs in [DFXPReader().read(DFXPWriter().write(CaptionSet({lang: CaptionList(pc)})))]
+                                  for l in cs.get_languages()])
+        return not (isinstance(back, Ok) and back.v == want), repr(back)
     langs = [[(parse_time(s), parse_time(e)) for (s, e) in sp] for sp in rec["input"]]
     li = rec["lang_index"]
     spans = langs[li]
